@@ -262,7 +262,12 @@ func (r SendErrReason) String() string {
 // Returns:
 //   - true if the error is temporary, false otherwise.
 func isTempError(err error) bool {
-	return err.Error()[0] == '4'
+	rootErr := errors.Unwrap(err)
+	if rootErr != nil {
+		err = rootErr
+	}
+	msg := err.Error()
+	return len(msg) > 0 && msg[0] == '4'
 }
 
 func errorCode(err error) int {
@@ -294,9 +299,16 @@ func enhancedStatusCode(err error, supported bool) string {
 	if firstrune != 50 && firstrune != 52 && firstrune != 53 {
 		return ""
 	}
-	re, rerr := regexp.Compile(`\b([245])\.\d{1,3}\.\d{1,3}\b`)
+	// the enhanced status code, if any, directly follows the reply code (RFC 2034); a
+	// dotted triple later in the text (e.g. part of an IP address) is not a status code.
+	// Newer Go releases quote the message part of a textproto.Error
+	re, rerr := regexp.Compile(`^\d{3} "?([245]\.\d{1,3}\.\d{1,3})\b`)
 	if rerr != nil {
 		return ""
 	}
-	return re.FindString(err.Error())
+	match := re.FindStringSubmatch(err.Error())
+	if len(match) < 2 {
+		return ""
+	}
+	return match[1]
 }
